@@ -285,7 +285,7 @@ def run_session(rundir: str, spec: dict) -> dict:
         return net
 
     def do(op: list) -> None:
-        nonlocal remote
+        nonlocal remote, wallet
         kind = op[0]
         if kind == "with":
             # ("with", "identity"|"wallet", "ok"|"ignore"|"error", [ops]): the application batches through the
@@ -452,6 +452,37 @@ def run_session(rundir: str, spec: dict) -> dict:
             w.insert_attestation(BlobAttestation(det_bytes("blob:" + name, size)),
                                  hashlib.sha1(name.encode()).digest(), BlobKey(det_bytes("key:" + name, 96)),  # noqa: S324
                                  ID_FORMAT)
+        elif kind == "complete":
+            # ("complete", name, size, "ok"|"raises"): the wallet row is written by the real
+            # AttestationCommunity.on_attestation_complete (what the last chunk of an attestation triggers), with an
+            # application completion callback that returns or raises (Community.on_packet logs that and goes on).
+            _, name, size, mode = op
+            if "wallet" not in net:
+                from ipv8.attestation.wallet.community import AttestationCommunity, AttestationSettings
+                from ipv8.peer import Peer
+                from ipv8.peerdiscovery.network import Network
+                need_identity()
+                wire = type(need_net()["us"].endpoint)
+                assert wallet is None, "the overlay owns the wallet connection of this process"
+                settings = AttestationSettings()
+                settings.my_peer = Peer(own, ("10.0.0.1", 7001))
+                settings.endpoint = wire(("10.0.0.1", 7001))
+                settings.network = Network()
+                settings.working_directory = dbdir
+                net["wallet"] = AttestationCommunity(settings)
+                wallet = net["wallet"].database
+                log.ev(e="O", db="wallet")
+
+            def completed(*_a, **_kw) -> None:  # noqa: ANN002, ANN003
+                if mode == "raises":
+                    raise RuntimeError("the application's completion callback failed")
+            net["wallet"].set_attestation_request_complete_callback(completed)
+            try:
+                net["wallet"].on_attestation_complete(
+                    BlobAttestation(det_bytes("blob:" + name, size)), BlobKey(det_bytes("key:" + name, 96)),
+                    need_net()["subject"].my_peer, name, hashlib.sha1(name.encode()).digest(), ID_FORMAT)  # noqa: S324
+            except RuntimeError:
+                pass
         elif kind == "legacy":
             # ("legacy", [names], size): not library code - fabricate the file a version-1 AttestationsDB left behind
             # (schema of get_schema(1): no id_format column, option.database_version = '1'), so that the next
